@@ -143,6 +143,10 @@ def branch_src(P, b):
         assert P["kind"]["spawn"] and not a
         path = [b] if len(P["branches"]) > 1 else []
         s = f"{nested_spawn_expr(path, 1, False)} -> move |_| {f}({iid}, {b})"
+    elif B["init"] == "await":
+        # the initial expression awaits something itself, inside the macro's future
+        assert a
+        s = f"rt::ainit_after(rt::wait({iid + 9}).await, {iid}, {b})"
     elif B["init"] == "thunk":
         s = f"move || {f}({iid}, {b})"
     elif B["init"] == "block":
